@@ -5,7 +5,8 @@
    Model and specification: theories/Num/Downscale.v. *)
 From Coq Require Import ZArith QArith List.
 From Coq Require Import SpecFloat.
-From NGS Require Import Val DType FloatModel Convert Downscale DownscaleProofs AverageProofs AverageBlock.
+From NGS Require Import Val DType FloatModel Convert ConvertFloatProofs Downscale DownscaleProofs
+     AverageProofs AverageBlock.
 Import ListNotations.
 Close Scope Q_scope.
 Close Scope Z_scope.
@@ -69,18 +70,35 @@ Theorem C07_avg_rejects : forall dt o fs a,
 Proof. exact avg_rejects. Qed.
 Print Assumptions C07_avg_rejects.
 
-(* (3) averaging on uint8/uint16/uint32 is exact: the whole result is the
-   specification array -- in every voxel the exact mean of the padded block
-   (edge value, or an outside value on the grid of multiples of 2^(3-k),
-   3 <= k <= 20), rounded half to even, saturated. *)
+(* (3) averaging on uint8/uint16/uint32 is exact for ALL values: the whole
+   result is the specification array -- in every voxel the exact mean of the
+   padded block (edge value, or an outside value on the grid of multiples of
+   2^(3-k), 3 <= k <= 20, e.g. 0, 1.5, 255, -3 with k = 4), rounded half to
+   even, saturated. *)
 Theorem C07_avg_exact : forall dt k (oc : option Z) fs nc nz ny nx (V : arr4 Z),
   small_uint dt = true -> check_factors_avg fs = true -> (3 <= k <= 20)%Z ->
   optP (Pu 3) oc -> rect4 nc nz ny nx V -> Forall4 (in_range dt) V ->
   avg_model dt (option_map (fl k) oc) fs (map4 NI V) =
     Ok (avg_spec dt (option_map (gridQ k) oc) (fac fs 0) (fac fs 1) (fac fs 2) nc nz ny nx
                  (map4 inject_Z V)).
-Proof. exact avg_exact. Qed.
+Proof. exact avg_exact_small_uint. Qed.
 Print Assumptions C07_avg_exact.
+
+(* ... and on any unsigned type, uint64 included, when the voxels are small
+   enough for the grid: |v| * 2^k < 2^52 (uint64 below 2^49 with k = 3) *)
+Theorem C07_avg_exact_on_guard : forall dt k (oc : option Z) fs nc nz ny nx (V : arr4 Z),
+  is_uint dt = true -> check_factors_avg fs = true -> (3 <= k <= 20)%Z ->
+  optP (Pu 3) oc -> rect4 nc nz ny nx V -> Forall4 (small_val k) V ->
+  avg_model dt (option_map (fl k) oc) fs (map4 NI V) =
+    Ok (avg_spec dt (option_map (gridQ k) oc) (fac fs 0) (fac fs 1) (fac fs 2) nc nz ny nx
+                 (map4 inject_Z V)).
+Proof. exact avg_exact. Qed.
+Print Assumptions C07_avg_exact_on_guard.
+
+Theorem C07_avg_uint64_guard_small : forall V, avg_uint64_guard U64 V = true ->
+  (forall v, In v (flatten V) -> (0 <= v)%Z) -> forall v, In v (flatten V) -> small_val 3 v.
+Proof. exact avg_uint64_guard_small. Qed.
+Print Assumptions C07_avg_uint64_guard_small.
 
 (* the float64 stage alone: exact on the fixed-point grid (no rounding before
    the final rint) *)
@@ -94,8 +112,8 @@ Print Assumptions C07_avg_f64_exact_on_grid.
 
 (* (4) bounds and no wrap-around on the exact region *)
 Theorem C07_avg_bounds : forall dt k (oc : option Z) fs nc nz ny nx (V : arr4 Z) out,
-  small_uint dt = true -> check_factors_avg fs = true -> (3 <= k <= 20)%Z ->
-  optP (Pu 3) oc -> rect4 nc nz ny nx V -> Forall4 (in_range dt) V ->
+  is_uint dt = true -> check_factors_avg fs = true -> (3 <= k <= 20)%Z ->
+  optP (Pu 3) oc -> rect4 nc nz ny nx V -> Forall4 (small_val k) V ->
   avg_model dt (option_map (fl k) oc) fs (map4 NI V) = Ok out ->
   forall c z y x, c < nc -> z < cdiv nz (fac fs 2) -> y < cdiv ny (fac fs 1) ->
     x < cdiv nx (fac fs 0) ->
@@ -113,6 +131,7 @@ Print Assumptions C07_avg_bounds.
 Theorem C07_avg_uint64_refuted :
   exists V fs,
     avg_uint64_guard U64 V = false /\ check_factors_avg fs = true /\ Forall4 (in_range U64) V /\
+    ~ Forall4 (small_val 3) V /\
     avg_model U64 None fs (map4 NI V) = Ok [[[[NI 0%Z; NI (2 ^ 53)%Z]]]] /\
     avg_spec U64 None (fac fs 0) (fac fs 1) (fac fs 2) 1 1 1 4 (map4 inject_Z V)
       = [[[[NI (2 ^ 64 - 1)%Z; NI (2 ^ 53 + 1)%Z]]]].
